@@ -8,6 +8,9 @@ CONSTANTS
   FixBatch = TRUE
   LossySend = TRUE
   HasKeepalive = FALSE
+  DirectCalls = TRUE
+  MaxMsgLen = 1
+  AsyncApply = FALSE
 INVARIANTS TypeOK
 PROPERTIES KeepsRetrying
 CHECK_DEADLOCK FALSE
